@@ -38,6 +38,9 @@ func markerTok(i, k int) *token.Token {
 // buildSynth builds one node of the given kind.  slots[i] (i = 0-based index of the struct field,
 // which is the 1-based TLA+ slot index minus one) says what to put there:
 // tkn/node/value/position: 0 absent, 1 present; list: length; tknlist: number of separators.
+// sharedChild: when set, every child slot (node slots and list items) holds this ONE object
+var sharedChild phpast.Vertex
+
 func buildSynth(kind string, slots []int) (phpast.Vertex, map[phpast.Vertex]string) {
 	ki := kindByName[kind]
 	if ki == nil {
@@ -50,6 +53,10 @@ func buildSynth(kind string, slots []int) (phpast.Vertex, map[phpast.Vertex]stri
 	v := pv.Elem()
 	ids := map[phpast.Vertex]string{}
 	node := func(i, k int) phpast.Vertex {
+		if sharedChild != nil {
+			ids[sharedChild] = "N0.0"
+			return sharedChild
+		}
 		n := &phpast.Identifier{Value: []byte(mk("N", i, k))}
 		ids[n] = fmt.Sprintf("N%d.%d", i, k)
 		return n
@@ -103,26 +110,47 @@ func opSynth(t Task) Result {
 	for _, x := range tArr(t, "slots") {
 		slots = append(slots, int(x.(float64)))
 	}
+	sharedChild = nil
+	if tBool(t, "shared") {
+		sharedChild = &phpast.Identifier{Value: []byte(mk("N", 0, 0))}
+	}
 	n, ids := buildSynth(tStr(t, "kind"), slots)
+	sharedChild = nil
 	before := fingerprint(n, fpOpts{tokens: true, positions: true, values: true})
 	res := Result{}
+	again := tBool(t, "again") // the same visitor object walks the node a second time
 	switch tStr(t, "run") {
 	case "traverse":
 		rv := &recVisitor{}
-		traverser.NewTraverser(rv).Traverse(n)
-		var seq []string
-		for _, x := range rv.seq {
-			if id, ok := ids[x]; ok {
-				seq = append(seq, id)
-			} else {
-				seq = append(seq, "foreign:"+kindName(x))
+		tr := traverser.NewTraverser(rv)
+		conv := func() []string {
+			var seq []string
+			for _, x := range rv.seq {
+				if id, ok := ids[x]; ok {
+					seq = append(seq, id)
+				} else {
+					seq = append(seq, "foreign:"+kindName(x))
+				}
 			}
+			return seq
 		}
-		res["seq"] = seq
+		tr.Traverse(n)
+		res["seq"] = conv()
+		if again {
+			rv.seq = nil
+			tr.Traverse(n)
+			res["seq2"] = conv()
+		}
 	case "print":
 		var buf bytes.Buffer
-		n.Accept(printer.NewPrinter(&buf).WithState(printer.PrinterStatePHP))
+		pr := printer.NewPrinter(&buf).WithState(printer.PrinterStatePHP)
+		n.Accept(pr)
 		res["out"] = b2s(buf.Bytes())
+		if again {
+			k := buf.Len()
+			n.Accept(pr)
+			res["out2"] = b2s(buf.Bytes()[k:])
+		}
 	case "dump":
 		var buf bytes.Buffer
 		d := dumper.NewDumper(&buf)
@@ -139,6 +167,15 @@ func opSynth(t Task) Result {
 			res["out"] = b2s(truncate(buf.Bytes(), 2000))
 		} else {
 			res["lit"] = lit
+		}
+		if again {
+			first := append([]byte(nil), buf.Bytes()...)
+			buf.Reset()
+			d.Dump(n)
+			res["same_again"] = bytes.Equal(first, buf.Bytes())
+			if !bytes.Equal(first, buf.Bytes()) {
+				res["out2"] = b2s(truncate(buf.Bytes(), 1500))
+			}
 		}
 	}
 	if fingerprint(n, fpOpts{tokens: true, positions: true, values: true}) != before {
